@@ -312,3 +312,157 @@ Proof.
   split; [unfold lx_C; apply H_accl; apply H_call; [exact I|apply H_hole]|].
   vm_compute. repeat split.
 Qed.
+
+(* ================================================================================================
+   REL round: the operator / built-in hypothesis for the FULL dispatcher is PROVED
+   (proofs/RelPure.v: every pure arm of EvalFull.builtin_full and sort_by / group_by / count_by respect
+   any structural value relation; proofs/C02OpsFull.v: the instance "renamed by rho" + store invariant).
+   unique / includes are included: Value::equals is blind to cell indices.  Hence the generic theorems
+   above hold for the evaluator the EVAL correspondence streams actually run (EvalFull.eval_full).
+   ================================================================================================ *)
+Require Import Blots.proofs.C02OpsFull.
+
+Theorem C02_ops_commute_full_proved : C02_ops_commute_full.
+Proof. exact ops_commute_full. Qed.
+Check C02_ops_commute_full_proved : ops_commute binop_impl builtin_full.
+Print Assumptions C02_ops_commute_full_proved.
+
+Theorem C02_store_extension_invariance_full : forall release rho, (forall a b : nat, rho a = rho b -> a = b) ->
+  forall d e sA sB fr r sA' fr',
+    sinv rho sA sB -> evalD release binop_impl builtin_full d (sA, fr) e = (r, (sA', fr')) ->
+    exists sB', evalD release binop_impl builtin_full d (sB, renFr rho fr) e = (oren rho r, (sB', renFr rho fr')) /\
+                sinv rho sA' sB'.
+Proof. exact store_extension_invariance_full. Qed.
+Check C02_store_extension_invariance_full : forall release rho, (forall a b : nat, rho a = rho b -> a = b) ->
+  forall d e sA sB fr r sA' fr',
+    sinv rho sA sB -> evalD release binop_impl builtin_full d (sA, fr) e = (r, (sA', fr')) ->
+    exists sB', evalD release binop_impl builtin_full d (sB, renFr rho fr) e = (oren rho r, (sB', renFr rho fr')) /\
+                sinv rho sA' sB'.
+Print Assumptions C02_store_extension_invariance_full.
+
+(* with the repaired naming rule (F52) there is no side condition on names: [C02_eval_twice_full_dispatcher]
+   above, with its hypothesis discharged *)
+Theorem C02_eval_twice_exact_full : forall release d e st fr r1 st1 fr1,
+  no_assign e = true -> frames_lt (length st) fr = true ->
+  evalD release binop_impl builtin_full d (st, fr) e = (r1, (st1, fr1)) ->
+  fr1 = fr /\
+  exists st2, evalD release binop_impl builtin_full d (st1, fr) e =
+                (oren (shift (length st) (length st1 - length st)) r1, (st2, fr)) /\
+              sinv (shift (length st) (length st1 - length st)) st1 st2.
+Proof. exact eval_twice_exact_full. Qed.
+Check C02_eval_twice_exact_full : forall release d e st fr r1 st1 fr1,
+  no_assign e = true -> frames_lt (length st) fr = true ->
+  evalD release binop_impl builtin_full d (st, fr) e = (r1, (st1, fr1)) ->
+  fr1 = fr /\
+  exists st2, evalD release binop_impl builtin_full d (st1, fr) e =
+                (oren (shift (length st) (length st1 - length st)) r1, (st2, fr)) /\
+              sinv (shift (length st) (length st1 - length st)) st1 st2.
+Print Assumptions C02_eval_twice_exact_full.
+
+Theorem C02_eval_twice_fullbi : forall release d e c r1 c1 r2 c2,
+  no_assign e = true -> cfg_wf c = true ->
+  evalD release binop_impl builtin_full d c e = (r1, c1) ->
+  evalD release binop_impl builtin_full d c1 e = (r2, c2) ->
+  osame r1 r2 /\ snd c2 = snd c /\ snd c1 = snd c.
+Proof. exact eval_twice_full. Qed.
+Check C02_eval_twice_fullbi : forall release d e c r1 c1 r2 c2,
+  no_assign e = true -> cfg_wf c = true ->
+  evalD release binop_impl builtin_full d c e = (r1, c1) ->
+  evalD release binop_impl builtin_full d c1 e = (r2, c2) ->
+  osame r1 r2 /\ snd c2 = snd c /\ snd c1 = snd c.
+Print Assumptions C02_eval_twice_fullbi.
+
+Theorem C02_eval_twice_equals_fullbi : forall release d e c v1 c1 v2 c2,
+  no_assign e = true -> cfg_wf c = true ->
+  evalD release binop_impl builtin_full d c e = (Ok v1, c1) ->
+  evalD release binop_impl builtin_full d c1 e = (Ok v2, c2) ->
+  equals v1 v2 = equals v1 v1.
+Proof. exact eval_twice_full_equals. Qed.
+Check C02_eval_twice_equals_fullbi : forall release d e c v1 c1 v2 c2,
+  no_assign e = true -> cfg_wf c = true ->
+  evalD release binop_impl builtin_full d c e = (Ok v1, c1) ->
+  evalD release binop_impl builtin_full d c1 e = (Ok v2, c2) ->
+  equals v1 v2 = equals v1 v1.
+Print Assumptions C02_eval_twice_equals_fullbi.
+
+Theorem C02_let_abstraction_head_partial_fullbi : forall release d x s st st1 fr v eA eB rA cA rB cB,
+  frames_lt (length st) fr = true ->
+  evalD release binop_impl builtin_full d (st, fr) (EId x) = (Ok v, (st, fr)) ->
+  evalD release binop_impl builtin_full d (st, fr) s = (Ok v, (st1, fr)) ->
+  cell_free v = true ->
+  hctx x s eA eB ->
+  evalD release binop_impl builtin_full d (st, fr) eA = (rA, cA) ->
+  evalD release binop_impl builtin_full d (st, fr) eB = (rB, cB) ->
+  osame rA rB.
+Proof. exact let_abstraction_head_full. Qed.
+Check C02_let_abstraction_head_partial_fullbi : forall release d x s st st1 fr v eA eB rA cA rB cB,
+  frames_lt (length st) fr = true ->
+  evalD release binop_impl builtin_full d (st, fr) (EId x) = (Ok v, (st, fr)) ->
+  evalD release binop_impl builtin_full d (st, fr) s = (Ok v, (st1, fr)) ->
+  cell_free v = true ->
+  hctx x s eA eB ->
+  evalD release binop_impl builtin_full d (st, fr) eA = (rA, cA) ->
+  evalD release binop_impl builtin_full d (st, fr) eB = (rB, cB) ->
+  osame rA rB.
+Print Assumptions C02_let_abstraction_head_partial_fullbi.
+
+(* the hypotheses are satisfiable on a program that uses the newly covered built-ins: sort_by with a fresh
+   closure as key function, unique over a list holding function values, sum, group_by through a named function *)
+Definition exf_cfg : cfg :=
+  ([Some "f"], [(FOwned, [("l", VList [VNum (num_of_Z 3); VNum (num_of_Z 1); VNum (num_of_Z 3)]); ("f", ex_f)])]).
+Definition exf_expr : expr :=
+  EList [Cm [] (ECall (EBuiltin B_sort_by) [EId "l"; ELam [AReq "k"] (EUn Negate (EId "k"))]) None;
+         Cm [] (ECall (EBuiltin B_unique) [EList [Cm [] (EId "f") None; Cm [] (ELam [AReq "z"] (EId "z")) None;
+                                                  Cm [] (EId "f") None]]) None;
+         Cm [] (ECall (EBuiltin B_sum) [ECall (EBuiltin B_map) [EId "l"; EId "f"]]) None;
+         Cm [] (ECall (EBuiltin B_group_by) [EId "l"; ELam [AReq "k"] (ECall (EBuiltin B_to_string) [EId "k"])]) None].
+Example C02_eval_twice_fullbi_example :
+  no_assign exf_expr = true /\ cfg_wf exf_cfg = true /\ all_named (fst exf_cfg) /\
+  let r1 := evalD true binop_impl builtin_full 6 exf_cfg exf_expr in
+  let r2 := evalD true binop_impl builtin_full 6 (snd r1) exf_expr in
+  is_ok (fst r1) = true /\ length (fst (snd r1)) = 4 /\ length (fst (snd r2)) = 7 /\
+  fst r1 <> fst r2 /\ osame (fst r1) (fst r2).
+Proof.
+  split; [reflexivity|split; [reflexivity|split]].
+  - intros [|id] Hid; [discriminate|cbn in Hid; lia].
+  - vm_compute. repeat split. intros H; discriminate H.
+Qed.
+
+(* No pure built-in observes the IDENTITY of a function cell (proofs/C02Blind.v; a third instance of
+   RelPure.v): argument vectors that are equal after erasing every cell index — which includes
+   [f0, f0] versus [f0, f1], a pair no renaming relates — give outcomes equal up to cell indices, for each of
+   the 32 pure arms of EvalFull.builtin_full (RelPure.pure_arm_of: aggregates, list / string / record
+   built-ins incl. unique includes sort, convert round random to_number to_string join). *)
+Require Import Blots.proofs.RelPure Blots.proofs.C02Blind.
+Theorem C02_pure_builtins_blind_to_cells : forall b f, pure_arm_of b = Some f ->
+  forall args args', Forall2 same_up_to_cells args args' -> osame (f args) (f args').
+Proof. exact pure_builtins_blind_to_cells. Qed.
+Check C02_pure_builtins_blind_to_cells : forall b f, pure_arm_of b = Some f ->
+  forall args args', Forall2 same_up_to_cells args args' -> osame (f args) (f args').
+Print Assumptions C02_pure_builtins_blind_to_cells.
+Example C02_pure_arm_table_size :
+  length (filter (fun b => match pure_arm_of b with Some _ => true | None => false end) all_builtins) = 32.
+Proof. vm_compute. reflexivity. Qed.
+
+(* The classification of the built-in arms that the parametricity proofs rest on (RelTable.v: which arms apply
+   Value::equals, which apply Value::compare, which call a function value) agrees with the SOURCE TEXT of
+   BuiltInFunction::call (coq/gen/ArmObservers.v, regenerated from blots-core/src/functions.rs on every run;
+   exhaustive over the regenerated built-in table), and every arm outside [calls_back] ignores its callback in the model. *)
+Require Import Blots.gen.ArmObservers Blots.RelTable.
+Theorem C02_arm_observers_match_source : forall b,
+  src_applies_equals b = equals_based b /\ src_applies_compare b = compare_based b /\
+  src_calls_function b = calls_back b.
+Proof. destruct b; repeat split. Qed.
+Check C02_arm_observers_match_source : forall b,
+  src_applies_equals b = equals_based b /\ src_applies_compare b = compare_based b /\
+  src_calls_function b = calls_back b.
+Print Assumptions C02_arm_observers_match_source.
+Theorem C02_other_arms_ignore_callback : forall b, src_calls_function b = false ->
+  forall cb cb' args st, builtin_full cb b args st = builtin_full cb' b args st.
+Proof.
+  intros b H. apply builtin_full_ignores_callback. destruct (C02_arm_observers_match_source b) as (_ & _ & E).
+  rewrite <- E. exact H.
+Qed.
+Check C02_other_arms_ignore_callback : forall b, src_calls_function b = false ->
+  forall cb cb' args st, builtin_full cb b args st = builtin_full cb' b args st.
+Print Assumptions C02_other_arms_ignore_callback.
